@@ -50,7 +50,15 @@ SeedRecords ==
     Rc("ns.R9", <<F("e", E3), F("f", F2)>>),
     Rc("ns.RD", <<FDf("a", PrimS("int"), JInt(1)), F("b", PrimS("string"))>>),
     Rc("ns.RA", <<F("a", Arr(Rc("ns.S", <<F("p", PrimS("int")), F("q", PrimS("long"))>>)))>>),
-    Rc("ns.RU", <<F("u", Un(<<RecA, RecB>>)), F("k", PrimS("long"))>>) }
+    Rc("ns.RU", <<F("u", Un(<<RecA, RecB>>)), F("k", PrimS("long"))>>),
+    \* an enum-typed field that has a FIELD default while the enum has no default of its own: a written symbol the
+    \* reader's enum lacks is an error (the field default is for a missing field, not for an unknown symbol);
+    \* inline and through a reference
+    Rc("ns.RE", <<FDf("e", E3, JStr("A", <<65>>)), F("k", PrimS("int"))>>),
+    Rc("ns.RG", <<F("d", E3), FDf("e", RefS("ns.E"), JStr("B", <<66>>))>>),
+    \* sibling positions with different logical types (a verdict or a result must not leak from one to the next)
+    Rc("ns.RS", <<F("a", PrimS("date")), F("b", PrimS("timestamp-micros")), F("c", PrimS("time-millis"))>>),
+    Rc("ns.RM", <<F("a", Mp(PrimS("date"))), F("b", Arr(PrimS("timestamp-micros")))>>) }
 
 (* a named type defined in one field and referenced in another; recursive shapes *)
 SeedNamed ==
